@@ -4,6 +4,7 @@ from __future__ import annotations
 from ..specs import operators as optab
 from . import coretypes as ct
 from . import array_folds as af
+from . import quantity_stack as qs
 
 EXPLANATION = '(R1) every comparison/logical dunder of Array evaluated with _binary_op stubbed, as a TRUTH SET over the element-wise relation of the operands {lt, eq, gt, unordered} (resp. boolean pairs): it must equal the truth set of the numpy function the Python data model prescribes (so ~(a > b) is not accepted for <=: it differs on NaN), strict, operands in order; (R2) _binary_op (strict) over operand kinds x unit relations, Array.to, Array.__init__ (shared with C02); (R3) boolean results are dimensionless over the dtype model.'
 NOT_DECIDED = "numpy's comparison of the converted numbers; floating-point rounding of the conversion"
@@ -31,4 +32,11 @@ def r3_bool_dimensionless(run, tree):
     af.check_wrap_numpy_fold(run, tree, want=("gate-bool",))
 
 
-RULES = [r1_table, r2_strict_conversion, r3_bool_dimensionless]
+def r4_end_to_end(run, tree):
+    run.rule("C07.R4", "end to end: a [m] <op> b [cm] compares the physical quantities (the sign of A*k_m - B*k_cm), labelled dimensionless; "
+             "a python int operand reaches numpy as an int (no float rounding of 64-bit integers)", "D7 fold of the whole Array class with numpy ufuncs and pint units as models", "", floor=5)
+    qs.check_array_stack(run, tree, only=("compare",))
+    qs.check_constructor_stack(run, tree)
+
+
+RULES = [r1_table, r2_strict_conversion, r3_bool_dimensionless, r4_end_to_end]
